@@ -29,10 +29,10 @@ open CB.Gen CB.Gen.Chains
 syntax "chain_congr " num : tactic
 macro_rules | `(tactic| chain_congr $n) => do
   match n.getNat with
-  | 0 => `(tactic| first | with_reducible rfl | bv_decide)
+  | 0 => `(tactic| first | with_reducible rfl | bv_decide | (simp only [gen_defs] <;> (try simp only [BitVec.mul_comm]) <;> bv_decide) | bv_decide)
   | k + 1 =>
     let m := Lean.Syntax.mkNumLit (toString k)
-    `(tactic| first | with_reducible rfl | bv_decide | (with_reducible congr 1 <;> chain_congr $m) | bv_decide)
+    `(tactic| first | with_reducible rfl | bv_decide | (with_reducible congr 1 <;> chain_congr $m) | (simp only [gen_defs] <;> (try simp only [BitVec.mul_comm]) <;> bv_decide) | bv_decide)
 
 /-- closes what is left of a round lemma after the generated loop has been unfolded once (nothing, when the two sides
     are already identical): unfold the generated word functions and compare -/
